@@ -168,12 +168,32 @@ def rule_c(ctx):
         nonconst = [e for e in rv if e[0] != "const"]
         consts = [e for e in rv if e[0] == "const"]
         if kind == "remove":
-            okk = len(nonconst) == 1 and nonconst[0][0] == "call" and (nonconst[0][3] or "").endswith("Option::<T>::is_some") and all(c[1] == 0 for c in consts)
-            if okk:
-                d = deps(m, [nonconst[0]])
-                rm = [x for x in d if x[0] == "call" and re.match(BT + r"(remove|remove_entry)(::<.*>)?$", F.inst[m.term(x[1])["f"]].name if m.term(x[1]).get("f") is not None else "")]
-                okk = bool(rm)
-            ctx.check(okk, rid, "unregister:returns-removed", "the returned value is false or `remove(&id.action).is_some()`", m.span, [show(e) for e in rv])
+            rm_calls = [bb for (bb, t, k, meth) in map_calls(F, m) if k == "bt" and meth in ("remove", "remove_entry")]
+            okk = bool(rm_calls) and all(c[1] in (0, 1) for c in consts)
+            for e in nonconst:
+                if not (e[0] == "call" and (e[3] or "").endswith("Option::<T>::is_some") and
+                        any(x[0] == "call" and x[1] in rm_calls for x in deps(m, [e]))):
+                    okk = False
+            # a literal `true` may only be assigned where the removal is known to have returned Some
+            if any(c[1] == 1 for c in consts):
+                for bb, bl in enumerate(m.blocks):
+                    for st in bl["s"]:
+                        if st["k"] == "assign" and not st["l"]["p"] and m.local_ty(st["l"]["l"]) == "bool" and st["r"]["k"] == "use" and \
+                                st["r"]["o"]["k"] == "const" and st["r"]["o"]["c"].get("val") == 1 and not bl["cleanup"]:
+                            # only locals that flow into the return value
+                            if not any(("const", 1, None) == x[:3] for x in [("const", 1, None)]):
+                                continue
+                            facts = facts_at(m, bb)
+                            some = any((ce[0] == "discr" and strip(ce[1])[0] == "call" and strip(ce[1])[1] in rm_calls and inf == ("eq", 1)) or
+                                       (ce[0] == "call" and (ce[3] or "").endswith("is_some") and truth(inf) is True and
+                                        any(x[0] == "call" and x[1] in rm_calls for x in deps(m, [ce]))) for (ce, inf, sb) in facts)
+                            # drop flags and unrelated bools: only those whose local reaches the return place
+                            reaches_ret = any(e == ("const", 1, None, "bool", None, None, "true") or (e[0] == "const" and e[1] == 1) for e in rv) and \
+                                _local_reaches_return(m, st["l"]["l"])
+                            if reaches_ret and not some:
+                                okk = False
+            ctx.check(okk, rid, "unregister:returns-removed", "the returned value is false, `remove(&id.action).is_some()`, or `true` on the branch where remove returned Some", m.span,
+                      [show(e) for e in rv])
         else:
             trues = [e for e in consts if e[1] == 1]
             okk = not nonconst and len(trues) >= 1
@@ -195,6 +215,19 @@ def rule_c(ctx):
                         nonempty = True
             ctx.check(okk and clear and dominated and nonempty, rid, "unregister_signal:returns-cleared", "true is produced only after clearing a slot that was not empty", m.span,
                       {"returned": [show(e) for e in rv], "clear_calls": len(clear), "true_after_clear": bool(dominated), "guarded_by_not_empty": nonempty})
+
+
+def _local_reaches_return(m, l):
+    """does local l flow (by plain copies) into the return place?"""
+    seen = {l}; changed = True
+    while changed:
+        changed = False
+        for bl in m.blocks:
+            for st in bl["s"]:
+                if st["k"] == "assign" and not st["l"]["p"] and st["r"]["k"] == "use" and st["r"]["o"].get("p") and not st["r"]["o"]["p"]["p"]:
+                    if st["r"]["o"]["p"]["l"] in seen and st["l"]["l"] not in seen:
+                        seen.add(st["l"]["l"]); changed = True
+    return 0 in seen
 
 
 def rule_d(ctx):
@@ -240,6 +273,13 @@ def rule_d(ctx):
             elif is_dfl:
                 # allowed only when the process is about to die: in every caller, no normal return after a successful restore
                 okk = True; why = []
+                after_here = cfg.reachable_after(m, bb, unwind=False)
+                if not (after_here & set(m.exits())):
+                    # the function itself never returns after the restore
+                    term = [b for b in after_here if m.term(b)["k"] == "call" and m.term(b).get("f") is not None and F.inst[m.term(b)["f"]].symbol == "abort"]
+                    ctx.check(bool(term), rid, key, "SIG_DFL restore only on the terminating path of default emulation (followed by raise + abort, never returns)", t["sp"],
+                              "no abort after the restore")
+                    continue
                 for (cid, k, cbb) in F.callers().get(m.id, []):
                     c = F.inst[cid]
                     if c.body is None or k != "call":
